@@ -409,10 +409,10 @@ def shards(tier, seed):
     out = [dict(kind='cycle')]
     for k in range(2):
         out.append(dict(kind='columns', seed=seed * 1000 + 100 + k,
-                        n=12 if tier == 'quick' else 250))
+                        n=12 if tier == 'quick' else 700))
     for k in range(13):
         out.append(dict(kind='hyp', seed=seed * 1000 + k,
-                        n=12 if tier == 'quick' else 250))
+                        n=12 if tier == 'quick' else 700))
     return out
 
 
